@@ -221,7 +221,8 @@ META = {
             "pairs stay infinite), every call site unpacks exactly what its flags return, the C++ fill writes a zero diagonal and "
             "mirrored entries with the right signs (symmetry/antisymmetry by construction), keeps the closest image per pair and only "
             "pairs within the cutoff, and the two copies of the neighbour search agree with the bin layout. Exactness of the minimum "
-            "over all images for arbitrary cells is numeric and is not decided.",
+            "over all images for arbitrary cells is numeric and is not decided."
+            " Also: cutoff / positions / cell reach the extension as given (reaching definitions; only the documented None defaults may be substituted), get_distances stores each table under its own name with the radii-corrected matrix a copy, infinite cutoff -> longest periodic vector.",
     "note": "trusted: clang 14's AST of the sources parsed with stub pybind11 headers; CPython ast. The extension cannot be rebuilt in "
             "this sandbox, so nothing here executes C++.",
     "technique": "cross-language signature agreement + clang-AST structural rules (pair fill, sibling agreement)",
